@@ -17,10 +17,19 @@
     delivered to that machine at once; otherwise nothing else happens.
   * `C07_other_machines`: transitions and limit decrements of other machines never change this
     machine's state limit (frame).
+  * `C07_exhausted` / `C07_exhausted_history` (whole calls and histories, every machine set, every
+    oracle, no well-formedness needed): once a machine's state limit is 0, every later call returns
+    for it at most a Cancel and leaves the limit at 0 — through self-transitions, CounterZero round
+    trips, LimitReached deliveries, batches, completions for it and for others — until the ghost
+    log records a resampling of its limit, which `enterState` writes only when the state index
+    changes (`C07_enter`). This is "no further limited action from that state until the machine
+    re-enters it from another state" (`Proofs/Exhausted.lean`, a fifth induction over the mutual
+    recursion).
   The implementation is tied to this by the correspondence on (state, limit) after every call
   (tag RS), the internal log with the hook's limit entries (tag L) and `C07.monitor`.
 -/
 import MbVerif.Proofs.SafeCall
+import MbVerif.Proofs.Exhausted
 
 namespace Mb.C07
 open Mb
@@ -144,5 +153,44 @@ example : belowActionLimits
     { allowedPaddingPackets := 0, maxPaddingFrac := 0, allowedBlockedMicrosec := 0, maxBlockingFrac := 0,
       states := [{ action := some (.updateTimer false { dist := .uniform 0 0, start := 0, max := 0 } none),
                    counterA := none, counterB := none, transitions := [] }] } = some false := by decide
+
+/-- once the limit is 0: until the machine changes its state index (a resampling is logged), a
+    call leaves the limit at 0 and returns at most a Cancel for the machine -/
+theorem C07_exhausted (mi : Nat) (es : List TEvent) (t : Int) (s : Fw σ)
+    (hz : ∀ r, s.rt[mi]? = some r → r.stateLimit = 0) :
+    ∃ l, (triggerEvents ρ es t s).log = l ++ s.log ∧
+      ((∃ x, LogEntry.limit mi x false ∈ l) ∨
+       ((∀ r, (triggerEvents ρ es t s).rt[mi]? = some r → r.stateLimit = 0) ∧
+        (∀ a, (triggerEvents ρ es t s).actions[mi]? = some (some a) → a.isCancel = true))) := by
+  obtain ⟨l, e, p⟩ := exhausted_call ρ (mi := mi) es t s hz
+  exact ⟨l, e, p.imp id (fun h => ⟨h.lim, h.slot⟩)⟩
+
+/-- the same over a whole history: as long as no resampling for the machine is logged, every call
+    of the history returned at most a Cancel for it and the limit stayed 0 -/
+theorem C07_exhausted_history (mi : Nat) (h : List Call) (s : Fw σ)
+    (hz : ∀ r, s.rt[mi]? = some r → r.stateLimit = 0) :
+    ∃ l, (runCalls ρ s h).log = l ++ s.log ∧
+      ((∃ x, LogEntry.limit mi x false ∈ l) ∨
+       ((∀ r, (runCalls ρ s h).rt[mi]? = some r → r.stateLimit = 0) ∧
+        (h ≠ [] → ∀ a, (runCalls ρ s h).actions[mi]? = some (some a) → a.isCancel = true))) := by
+  unfold runCalls
+  induction h generalizing s with
+  | nil => exact ⟨[], rfl, Or.inr ⟨hz, fun hne => absurd rfl hne⟩⟩
+  | cons c cs ih =>
+    simp only [List.foldl_cons]
+    obtain ⟨l1, e1, p1⟩ := C07_exhausted ρ mi c.1 c.2 s hz
+    rcases p1 with ⟨x, hx⟩ | ⟨hz1, hs1⟩
+    · -- resampled in the first call: only the log extension is needed for the rest
+      obtain ⟨l2, e2⟩ := runCalls_logExt ρ cs (triggerEvents ρ c.1 c.2 s)
+      unfold runCalls at e2
+      exact ⟨l2 ++ l1, by rw [e2, e1, List.append_assoc], Or.inl ⟨x, by simp [hx]⟩⟩
+    · obtain ⟨l2, e2, p2⟩ := ih (triggerEvents ρ c.1 c.2 s) hz1
+      refine ⟨l2 ++ l1, by rw [e2, e1, List.append_assoc], ?_⟩
+      rcases p2 with ⟨x, hx⟩ | ⟨hz2, hs2⟩
+      · exact Or.inl ⟨x, by simp [hx]⟩
+      · refine Or.inr ⟨hz2, fun _ a ha => ?_⟩
+        cases cs with
+        | nil => exact hs1 a ha
+        | cons d ds => exact hs2 (by simp) a ha
 
 end Mb.C07
